@@ -157,8 +157,11 @@ def run_one(prog, rows, meta, agg):
     shape = lang.prog_shape(prog) + f"|{meta['fire']}|{meta['window']}|{meta['layout']}"
     case = {"prog": prog, "rows": rows, "meta": meta}
     if status == "held":
-        fired = meta["kind"].startswith("last()") or bool(meta["fire"])
-        agg.held(shape, fired, sample={"program": info["program"], "rows": rows, "meta": meta})
+        # non-trivial: the control function actually fired / advanced over a scanned line (last(): some line was scanned)
+        fired = bool(info["fired_lines"]) or info["advanced_over"] > 0 or (meta["kind"].startswith("last()") and info["lines_scanned"] > 0)
+        agg.held(shape, fired, sample={"program": info["program"], "rows": rows, "meta": meta, "control_fired_on_lines": info["fired_lines"]} if fired else None)
+        if fired:
+            agg.count("cases_where_control_fired")
         agg.count("kind:" + meta["kind"].split("+")[0])
     elif status == "undecided":
         agg.skipped(info)
